@@ -18,6 +18,7 @@ import (
 	"math/big"
 	"sort"
 	"strconv"
+	"time"
 
 	"github.com/NibiruChain/collections"
 	"github.com/cosmos/cosmos-sdk/codec"
@@ -27,12 +28,15 @@ import (
 	gethcommon "github.com/ethereum/go-ethereum/common"
 	"github.com/ethereum/go-ethereum/crypto"
 
+	. "verifharness/hx"
+
 	"github.com/NibiruChain/nibiru/v2/app"
 	"github.com/NibiruChain/nibiru/v2/eth"
 	"github.com/NibiruChain/nibiru/v2/x/common/asset"
 	devgastypes "github.com/NibiruChain/nibiru/v2/x/devgas/v1/types"
 	epochstypes "github.com/NibiruChain/nibiru/v2/x/epochs/types"
 	"github.com/NibiruChain/nibiru/v2/x/evm"
+	"github.com/NibiruChain/nibiru/v2/x/evm/embeds"
 	inflationtypes "github.com/NibiruChain/nibiru/v2/x/inflation/types"
 	oracletypes "github.com/NibiruChain/nibiru/v2/x/oracle/types"
 	sudotypes "github.com/NibiruChain/nibiru/v2/x/sudo/types"
@@ -100,8 +104,6 @@ func (r *reg) finish() {
 }
 
 type J = []interface{}
-
-func unixMs(t interface{ UnixMilli() int64 }) int64 { return t.UnixMilli() }
 
 func valBytes(bech string) []byte {
 	v, err := sdk.ValAddressFromBech32(bech)
@@ -278,7 +280,7 @@ func dumpState(ctx sdk.Context, a *app.NibiruApp, r *reg) map[string]interface{}
 		o["rewards"] = rw
 		o["rewards_id"] = optU64(nsOf(raw, 9))
 		sn := J{}
-		for _, kv := range k.PriceSnapshots.Iterate(ctx, collections.PairRange[asset.Pair, timeT]{}).KeyValues() {
+		for _, kv := range k.PriceSnapshots.Iterate(ctx, collections.PairRange[asset.Pair, time.Time]{}).KeyValues() {
 			sn = append(sn, J{r.S(kv.Key.K1().String()), kv.Key.K2().UnixMilli(), r.S(kv.Value.Pair.String()), r.V("dec:" + kv.Value.Price.String()), kv.Value.TimestampMs})
 		}
 		o["snaps"] = sn
@@ -618,7 +620,16 @@ func runQueries(ctx sdk.Context, a *app.NibiruApp, r *reg, q queryPlan) J {
 		for slot := int64(0); slot < 4; slot++ {
 			out = append(out, r.V(call(s, append(word(3), word(slot)...))))
 		}
-		out = append(out, r.V("codeq:"+hex.EncodeToString(a.EvmKeeper.GetCode(ctx, a.EvmKeeper.GetAccountOrEmpty(ctx, s).CodeHash))))
+		cq := "err"
+		if resp, err := a.EvmKeeper.Code(ctx, &evm.QueryCodeRequest{Address: s.Hex()}); err == nil {
+			cq = hex.EncodeToString(resp.Code)
+		}
+		out = append(out, r.V("codeq:"+cq))
+		sq := "err"
+		if resp, err := a.EvmKeeper.Storage(ctx, &evm.QueryStorageRequest{Address: s.Hex(), Key: gethcommon.BigToHash(big.NewInt(1)).Hex()}); err == nil {
+			sq = resp.Value
+		}
+		out = append(out, r.V("storq:"+sq))
 	}
 	for _, e := range q.erc20s {
 		in, _ := erc20ABI.Pack("balanceOf", q.holder)
@@ -631,5 +642,7 @@ func runQueries(ctx sdk.Context, a *app.NibiruApp, r *reg, q queryPlan) J {
 	return out
 }
 
-var _ = big.NewInt
+var erc20ABI = embeds.SmartContract_ERC20Minter.ABI
 var _ = authtypes.ModuleName
+
+func rangeU64() collections.Range[uint64] { return collections.Range[uint64]{} }
